@@ -250,7 +250,9 @@ impl<CS: CipherSuite> ClientRegistration<CS> {
 
         Ok(Self {
             oprf_client: voprf::OprfClient::deserialize(&checked_slice[..client_len])?,
-            blinded_element: voprf::BlindedElement::deserialize(&checked_slice[client_len..])?,
+            blinded_element: crate::messages::deserialize_blinded_element::<CS>(
+                &checked_slice[client_len..],
+            )?,
         })
     }
 
